@@ -1239,14 +1239,13 @@ class Delay(Function):
             initial_value) if initial_value is not None else initial_value
 
     def term(self, time="t"):
-        delayed_time = "{} - {}".format(str(time),
-                                        self.delay_duration.term(str(self.model.starttime)))
-        return "({} if {}>={} else {})".format(
+        delayed_time = "({}) - ({})".format(str(time),
+                                            self.delay_duration.term("model.starttime"))
+        return "(({}) if ({})>=model.starttime else ({}))".format(
             self.input_function.term(delayed_time),
             delayed_time,
-            str(self.model.starttime),
-            self.initial_value.term(str(self.model.starttime)) if self.initial_value is not None else self.input_function.term(
-                str(self.model.starttime))
+            self.initial_value.term("model.starttime") if self.initial_value is not None else self.input_function.term(
+                "model.starttime")
         )
 
 
